@@ -67,6 +67,14 @@ def check_molecule(tw, smi, fails, tags):
             bad("h_to_explicit", "molecule changed: %r, expected %r" % (es, want), "explicit-h")
     except Exception as ex:
         bad("graph_to_smi", "raised %r on the explicit-H graph" % (ex,), "explicit-h")
+    # the contract under proof for h_to_explicit (default call: all atoms) evaluated on the real function; graphs from SMILES carry no typesGH
+    if K_EXPL in tw.functions and not any("typesGH" in d for _, d in G.nodes(data=True)):
+        try:
+            out_e, v_e = tw.check_call(K_EXPL, lambda G, nodes, its: h_to_explicit(G, nodes, its), dict(G=G, nodes=None, its=False))
+            if v_e or out_e[0] != "return":
+                fails.append({"function": "h_to_explicit", "violations": list(v_e) or ["raised %s" % (out_e[1],)], "smiles": smi, "tags": dict(tags, clause="explicit-contract")})
+        except Exception as ex:
+            bad("h_to_explicit", "contract evaluation raised %r" % (ex,), "explicit-contract")
     ebefore = gdump(E)
     try:
         out, v = tw.check_call(K_IMPL, h_to_implicit, dict(G=E)) if K_IMPL in tw.functions else (("return", h_to_implicit(E)), [])
